@@ -262,6 +262,8 @@ def C19(tier):
     stages = [
         dict(name="laws_random", family="quant", trace="Trace_Quant", profile="dev",
              gen=dict(count=(2500, 25000), params={"kinds": "qlaws"})),
+        dict(name="laws_on_nd_lanes", family="quant", trace="Trace_Quant", profile="dev",
+             gen=dict(count=(1500, 10000), params={"kinds": "ndlaws"})),
         dict(name="laws_deep_recursion", family="quant", trace="Trace_Quant", profile="dev", chunk=50,
              gen=dict(count=(200, 2000), params={"kinds": "qlaws", "deep": "1"})),
     ]
